@@ -64,6 +64,7 @@ func main() {
 		os.Exit(2)
 	}
 	cx := &Ctx{W: w, Fx: newFacts(w), Tier: *tier}
+	w.fx = cx.Fx
 	if *dump != "" {
 		doDump(cx, *dump)
 		return
@@ -247,6 +248,7 @@ func doReplay(path, repo, verif string) int {
 		return 2
 	}
 	cx := &Ctx{W: w, Fx: newFacts(w), Tier: "quick"}
+	w.fx = cx.Fx
 	r := newReport(prop, "quick")
 	f(cx, r)
 	for _, o := range r.Obl {
